@@ -40,6 +40,7 @@ def concrete_fn(name):
         'tb': lambda v, k: v.to_bytes(k, 'big') if 0 <= k <= 512 and 0 <= v < (1 << (8 * k)) else _undef(),
         'tl': lambda v, k: v.to_bytes(k, 'little') if 0 <= k <= 512 and 0 <= v < (1 << (8 * k)) else _undef(),
         'bfind': lambda b, s: b.find(s),
+        'rmul': lambda x, y: x * y, 'rdiv': lambda x, y: x / y if y != 0 else _undef(),
         'rpow': lambda x, n: x ** n if 0 <= n <= 64 else _undef(), 'rpow2': lambda n: Fraction(2) ** n if -512 <= n <= 512 else _undef(),
     }
     return table.get(name)
